@@ -15,6 +15,9 @@ def plan(tier):
             "writer_sink_short_writes_beyond_capacity", "writer_default_capacity_exceeded_short_sink",
             "sniff_at_nonzero_offset", "sniff_seek_at_offset", "sniff_get_kind_at_offset", "sniff_after_consuming",
             "sniff_second_block_same_format", "header_unicode_whitespace",
+            "records_as_copies_clone_serde_clone_from", "read_then_records_on_one_reader",
+            "records_through_nth_step_by_count_last", "reader_from_file", "either_from_file_and_get_kind_file",
+            "writer_from_bufwriter", "writer_to_file_flush", "writer_to_file_dropped_unflushed",
             "io_interrupted_reads", "io_interrupted_before_first_byte", "io_interrupted_twice_in_a_row",
             "sniffer_first_read_interrupted", "sink_interrupted_writes", "error_path_multibyte_at_every_offset",
             "cap1", "cap8192", "sched_all1", "sched_line_end", "wrap1", "wrap_eq_len", "wrap_len_plus1",
